@@ -669,3 +669,146 @@ func zzC14Carves(c *zzC14Call, fam string, s, e int64, cls int) {
 		vrt.Carve("C14-substitute-count-per-examined", c.cntMode == 2 && s < e && c.count < e-s)
 	}
 }
+
+/*
+obligations.d/C14.json is generated by the following Python script (kept here
+because the case lists are long; edit the script, not the JSON):
+
+import json, sys
+OV={"(*github.com/ohler55/slip.Panic).AppendToStack": "github.com/ohler55/slip.zzC14StubAppendToStack",
+    "github.com/ohler55/slip.WrapError": "github.com/ohler55/slip.zzC14StubWrapError"}
+STUB=(" Stubs (engine only): (*Panic).AppendToStack and WrapError keep everything except the printed text of the call in the stack trace "
+      "(printing symbolic fixnums forks per digit count; C14 never reads that text).")
+COMMON=("Forms are built as objects and evaluated through the real registry (scope.Eval). Element values, item, new value, :start/:end/:count "
+        "(each within [-1, length+1] so that every class of invalid bound occurs) are symbolic: lists/vectors hold unrestricted 64-bit fixnums, "
+        "strings symbolic ASCII characters (< 128). Length(s), sequence type (0 list, 1 vector, 2 string), the :key/:test callers are case parameters; "
+        "presence of optional keywords (absent / nil / value) is a vrt.Choice (the explicit nil forms of :from-end and :count are combined with absent bounds only; two-sequence functions use 9 presence shapes of :start1 :end1 :start2 :end2). "
+        ":key/:test/predicates are harness-defined slip function objects "
+        "(identity, 1+, non-injective ash -1, asymmetric <, =, positive-p). Oracle: CLHS 17.2/17.3 definitions on plain int64 slices, index based. "
+        "Invalid bounding indices must give a Lisp condition, valid calls a value; regions of known findings (known_findings.d/C14.txt) are excluded by vrt.Carve and probed separately.")
+def ob(id, entry, quick, thorough, note, reach=["compared"], carves=[]):
+    return {"id": id, "property": "C14", "pkg": "pkg/cl", "entry": entry,
+            "cases": {"quick": quick, "thorough": thorough}, "reach": reach,
+            "max_depth": 400, "max_steps": 20000000, "solver_timeout_ms": 10000,
+            "carves": carves, "overrides": OV, "note": note+" "+COMMON+STUB,
+            "assumptions": ["string elements are ASCII (one byte per character) except the fixed first character of C14.count-multibyte",
+                            "bounds, :count restricted to [-1, length+1]",
+                            "sort.Slice/SliceStable modelled as insertion sort (exact below 12 elements)"]}
+KT_ITEM=[(0,0),(1,0),(2,0),(6,0),(0,3),(2,3),(0,5)]
+KT_IF=[(0,0),(1,0),(2,0)]
+def fam(kinds, ns, last_item, last_if):
+    out=[]
+    for k in kinds:
+        for n in ns:
+            for l in last_item:
+                for km,tm in KT_ITEM: out.append([k,n,km,tm,l])
+            for l in last_if:
+                for km,tm in KT_IF: out.append([k,n,km,tm,l])
+    return out
+def base(kinds, ns, lasts):
+    return [[k,n,0,0,l] for k in kinds for n in ns for l in lasts]
+def uniq(l):
+    seen=set(); out=[]
+    for x in l:
+        t=tuple(x)
+        if t not in seen: seen.add(t); out.append(x)
+    return out
+spec=[]
+# ---- find / position / count: last = 0 item form, 1 -if form
+QF_ITEM=[[0,2,km,tm,0] for km,tm in KT_ITEM[1:]]+[[2,2,2,3,0],[2,2,0,3,0],[1,2,2,3,0]]
+QF_IF=[[0,2,km,tm,1] for km,tm in KT_IF[1:]]+[[2,2,2,0,1]]
+for name,entry in [("find","VerifC14Find"),("position","VerifC14Position"),("count","VerifC14Count")]:
+    if name=="find":
+        q=uniq(base([0],[0,1,2,3],[0,1])+base([1],[2],[0,1])+base([2],[0,1,2],[0,1])+QF_ITEM+QF_IF)
+    else:
+        q=uniq(base([0],[0,1,2],[0,1])+base([0],[3],[0])+base([2],[2],[0,1])+[[0,2,2,3,0],[0,2,6,0,0],[2,2,2,3,0],[0,2,2,0,1],[1,2,0,3,0]])
+    t=uniq(base([0,1,2],[0,1,2,3,4],[0,1])+fam([0,1,2],[2,3],[0],[1]))
+    spec.append(ob("C14."+name, entry, q, t, "(%s item seq ...) and (%s-if pred seq ...) with :start :end :from-end :key :test; params kind,n,keyMode,testMode,ifForm."%(name,name)))
+spec.append(ob("C14.count-multibyte","VerifC14CountMB",[[n,f] for n in [0,1,2] for f in [0,1]],[[n,f] for n in [0,1,2,3] for f in [0,1]],"count / count-if on a string whose first character is the two byte character e-acute followed by n symbolic ASCII characters (indices are character indices); params n,ifForm."))
+# ---- remove/delete: last 0 remove 1 remove-if 2 delete 3 delete-if
+q=uniq(base([0],[0,1,2,3],[0])+base([0],[1,2],[1])+base([0],[2],[2,3])+base([1],[2],[0])+base([2],[2],[0,1])+[[0,2,2,3,0],[0,2,6,0,0],[0,2,0,5,0],[2,2,2,3,0],[0,2,2,0,1],[0,2,1,0,2]])
+t=uniq(base([0],[0,1,2,3,4],[0,1,2,3])+base([1,2],[0,1,2,3],[0,1,2,3])+fam([0,2],[2,3],[0,2],[1,3])+fam([1],[2],[0],[1]))
+spec.append(ob("C14.remove","VerifC14Remove",q,t,"remove, remove-if, delete, delete-if with :start :end :from-end :count :key :test; params kind,n,keyMode,testMode,fn."))
+# ---- substitute
+q=uniq(base([0],[0,1,2],[0])+base([0],[2],[1,2])+base([0],[1],[3])+base([1],[1],[0])+base([2],[2],[0])+base([2],[1],[1])+[[0,2,2,3,0],[0,1,6,0,0],[2,1,2,3,0]])
+t=uniq(base([0],[0,1,2,3,4],[0,1,2,3])+base([1,2],[0,1,2,3],[0,1,2,3])+fam([0,2],[2,3],[0,2],[1,3])+fam([1],[2],[0],[1]))
+spec.append(ob("C14.substitute","VerifC14Substitute",q,t,"substitute, substitute-if, nsubstitute, nsubstitute-if (new value symbolic) with :start :end :from-end :count :key :test; params kind,n,keyMode,testMode,fn."))
+# ---- remove-duplicates: equivalence tests only
+RD=[(0,0),(2,5),(6,0),(6,5)]
+q=[[0,n,0,0,0] for n in [0,1,2,3]]+[[2,n,0,0,0] for n in [1,2]]+[[0,2,km,tm,0] for (km,tm) in RD]+[[0,2,0,0,1],[1,2,0,0,0],[2,2,6,5,1]]
+t=[[k,n,km,tm,f] for k in [0,1,2] for n in [0,1,2,3,4] for (km,tm) in RD for f in [0,1]]
+spec.append(ob("C14.remove-duplicates","VerifC14RemoveDuplicates",uniq(q),t,"remove-duplicates / delete-duplicates with :start :end :from-end :key :test; the test is an equivalence (equal or =), because for other tests the standard does not fix which pairs are compared; params kind,n,keyMode,testMode,fn."))
+# ---- member / assoc
+MKT=[(0,0),(2,0),(6,0),(0,3),(2,3)]
+q=[[n,km,tm,f] for n in [0,1,2,3] for (km,tm) in MKT for f in [0,1] if not (f==1 and tm)]
+t=[[n,km,tm,f] for n in [0,1,2,3,4,5] for (km,tm) in MKT for f in [0,1] if not (f==1 and tm)]
+spec.append(ob("C14.member","VerifC14Member",q,t,"(member item list :key :test), (member-if pred list :key): the tail from the first satisfying element; params n,keyMode,testMode,fn."))
+def assoc(ns):
+    return [[n,km,tm,f,na] for n in ns for (km,tm) in MKT for f in [0,1,2,3,4] for na in range(n+1) if not (f in (1,2,4) and tm)]
+spec.append(ob("C14.assoc","VerifC14Assoc",[c for c in assoc([0,1,2]) if c[0]<2 or c[1:3] in ([0,0],[2,3],[6,0])],assoc([0,1,2,3,4]),"assoc, assoc-if, assoc-if-not, rassoc, rassoc-if on an alist of n conses (k . v) with symbolic k, v; nilAt < n inserts a nil entry that must be skipped; params n,keyMode,testMode,fn,nilAt."))
+# ---- search / mismatch / replace
+MN_Q=[(0,0),(0,2),(1,1),(1,2),(2,2),(2,1)]
+MN_T=[(0,0),(0,1),(0,2),(1,0),(1,1),(1,2),(2,1),(2,2),(1,3),(2,3),(3,2),(3,3),(2,4)]
+SKT=[(0,0),(2,0),(0,3),(6,5)]
+q=[[0,m,n,0,0] for (m,n) in [(1,2),(2,2)]]+[[2,1,2,0,0],[0,1,2,2,3]]
+t=[[k,m,n,km,tm] for k in [0,1,2] for (m,n) in MN_T for (km,tm) in SKT if ((km,tm)==(0,0) and (k==0 or m+n<=5)) or (m,n) in [(1,2),(2,2)] or (k==0 and (m,n)==(2,3))]
+spec.append(ob("C14.search","VerifC14Search",q,t,"(search seq1 seq2 :start1 :end1 :start2 :end2 :from-end :key :test): leftmost/rightmost match index; 9 presence shapes of the four bounds; params kind,m,n,keyMode,testMode."))
+spec.append(ob("C14.mismatch","VerifC14Mismatch",q,t,"(mismatch seq1 seq2 :start1 :end1 :start2 :end2 :from-end :key :test): CLHS index relative to sequence-1; params kind,m,n,keyMode,testMode."))
+q=[[0,m,n] for (m,n) in [(0,0),(0,1),(1,1),(2,1),(1,2)]]+[[1,2,1],[2,2,1]]
+t=[[k,m,n] for k in [0,1,2] for (m,n) in MN_T]
+spec.append(ob("C14.replace","VerifC14Replace",q,t,"(replace seq1 seq2 :start1 :end1 :start2 :end2): result (and for lists/vectors the modified argument) equals the reference; params kind,m,n."))
+# ---- subseq / fill / reverse
+q=[[k,n] for k in [0,1,2] for n in [0,1,2,3]]
+t=[[k,n] for k in [0,1,2] for n in [0,1,2,3,4,5]]
+spec.append(ob("C14.subseq","VerifC14Subseq",q,t,"(subseq seq start [end]) incl. the no-shared-storage requirement (the result is overwritten and the argument re-read); params kind,n."))
+spec.append(ob("C14.fill","VerifC14Fill",q,t,"(fill seq item :start :end); params kind,n."))
+q=[[k,n,f] for k in [0,1,2] for n in [0,1,2,3,4] for f in [0,1,2]]
+t=[[k,n,f] for k in [0,1,2] for n in [0,1,2,3,4,5,6] for f in [0,1,2]]
+spec.append(ob("C14.reverse","VerifC14Reverse",q,t,"reverse, nreverse, copy-seq; params kind,n,fn."))
+# ---- sort / merge
+q=[[k,n,km,f] for k in [0,1,2] for n in [0,1,2,3] for km in [0,2,6] for f in [0,1] if not (f==0 and km==6) and not (k!=0 and n<2)]
+t=[[k,n,km,f] for k in [0,1,2] for n in [0,1,2,3,4,5] for km in [0,2,6] for f in [0,1] if not (f==0 and km==6)]
+spec.append(ob("C14.sort","VerifC14Sort",q,t,"(sort seq < :key k) and (stable-sort seq < :key k): the result equals the reference stable insertion sort (with an injective key the ordered permutation is unique, so this is 'permutation and ordered'; with the non-injective key only stable-sort is run: equal keys keep input order); params kind,n,keyMode,fn."))
+q=[[k,m,n,km] for k in [0,2] for (m,n) in [(0,0),(0,1),(1,0),(1,1),(2,1),(1,2)] for km in [0,6]]+[[1,1,1,6],[0,2,2,6]]
+t=[[k,m,n,km] for k in [0,1,2] for (m,n) in [(0,0),(0,1),(1,0),(1,1),(2,1),(1,2),(2,2),(3,2),(2,3),(3,3)] for km in [0,2,6]]
+spec.append(ob("C14.merge","VerifC14Merge",q,t,"(merge result-type seq1 seq2 < :key k) with both inputs assumed sorted: stable merge (sequence-1 first on ties); params kind,m,n,keyMode."))
+# ---- sets
+SET_KT=[(0,0),(6,0),(2,5)]
+q=[[m,n,km,tm,f] for (m,n) in [(0,0),(0,1),(1,0),(1,1),(2,1),(1,2),(2,2)] for (km,tm) in SET_KT for f in [0,1,2,3]]
+t=[[m,n,km,tm,f] for (m,n) in [(0,0),(0,1),(1,0),(1,1),(2,1),(1,2),(2,2),(3,2),(2,3),(3,3)] for (km,tm) in SET_KT for f in [0,1,2,3]]
+spec.append(ob("C14.set","VerifC14Set",q,t,"union, intersection, set-difference, subsetp with :key/:test (equivalences); lists assumed duplicate-free under the test; the result is compared as a set (order and which of two matching elements is kept are unspecified); params m,n,keyMode,testMode,fn."))
+# ---- every/some
+q=[[k,m,n,two,f] for k in [0,1,2] for (m,n,two) in [(0,0,0),(2,0,0),(3,0,0),(0,1,1),(2,1,1),(2,2,1)] for f in [0,1,2,3] if k==0 or (m,n,two) in [(2,0,0),(2,1,1)]]
+t=[[k,m,n,two,f] for k in [0,1,2] for (m,n,two) in [(0,0,0),(1,0,0),(2,0,0),(3,0,0),(4,0,0),(5,0,0),(0,1,1),(2,1,1),(1,2,1),(2,2,1),(3,3,1),(4,3,1)] for f in [0,1,2,3]]
+spec.append(ob("C14.every","VerifC14Every",q,t,"every, some, notany, notevery over one sequence (one argument predicate) or two sequences (two argument predicate, stops at the shorter); params kind,m,n,two,fn."))
+# ---- reduce / map / concatenate
+q=[[0,n,0] for n in [0,1,2,3]]+[[2,1,0],[2,2,0],[0,2,2],[1,2,2],[2,2,2]]
+t=[[k,n,km] for k in [0,1,2] for n in [0,1,2,3,4] for km in [0,2]]
+spec.append(ob("C14.reduce","VerifC14Reduce",q,t,"(reduce f seq :start :end :from-end :initial-value :key) with f = (lambda (&optional a b) ...) returning 7 for no arguments and a-b otherwise; also checks that the argument is not modified; params kind,n,keyMode."))
+q=[[k,m,n,two,f] for k in [0,1,2] for (m,n,two) in [(0,0,0),(1,0,0),(2,0,0),(0,1,1),(2,1,1),(1,2,1),(2,2,1)] for f in [0,1,2] if not (f==2 and k!=0)]
+t=[[k,m,n,two,f] for k in [0,1,2] for (m,n,two) in [(0,0,0),(1,0,0),(2,0,0),(3,0,0),(4,0,0),(0,1,1),(2,1,1),(1,2,1),(2,2,1),(3,3,1),(4,2,1)] for f in [0,1,2] if not (f==2 and k!=0)]
+spec.append(ob("C14.map","VerifC14Map",q,t,"(map 'list|'vector f seq [seq2]) and (mapcar f list [list2]) with f = 1+ or a-b; params kind,m,n,two,fn."))
+q=[[rt,k1,k2,m,n] for rt in [0,1] for k1 in [0,1,2] for k2 in [0,1,2] for (m,n) in [(0,0),(1,2),(2,1)]]+[[2,2,2,m,n] for (m,n) in [(0,0),(0,1),(1,2),(2,1)]]
+t=[[rt,k1,k2,m,n] for rt in [0,1] for k1 in [0,1,2] for k2 in [0,1,2] for (m,n) in [(0,0),(0,2),(1,2),(2,1),(3,3)]]+[[2,2,2,m,n] for (m,n) in [(0,0),(0,1),(1,2),(2,1),(3,3)]]
+spec.append(ob("C14.concatenate","VerifC14Concatenate",q,t,"(concatenate 'list|'vector|'string seq1 seq2) over all pairs of argument types; params resultType,kind1,kind2,m,n."))
+# ---- probe obligations: one small case inside the region of each known finding
+KF=[("C14-invalid-bounds-accepted","VerifC14Count",[0,1,0,0,0]),
+    ("C14-valid-args-rejected","VerifC14Fill",[0,1]),
+    ("C14-substitute-count-per-examined","VerifC14Substitute",[0,2,0,0,0]),
+    ("C14-assoc-test-args-swapped","VerifC14Assoc",[1,0,3,0,1]),
+    ("C14-search-wrong-index","VerifC14Search",[0,1,1,0,0]),
+    ("C14-mismatch-from-end-index","VerifC14Mismatch",[0,2,2,0,0]),
+    ("C14-subseq-shares-storage","VerifC14Subseq",[0,2]),
+    ("C14-merge-not-stable","VerifC14Merge",[0,1,1,6]),
+    ("C14-reduce-empty-and-key","VerifC14Reduce",[0,1,2]),
+    ("C14-key-multiple-values","VerifC14Find",[0,1,8,0,0])]
+for kid,entry,case in KF:
+    spec.append(ob("C14.known."+kid[4:], entry, [case],[case], "Probe case for the known finding %s: the engine must still find a natively reproducing violation inside the carved region (the same Carve call excludes the region in every other obligation)."%kid, reach=[], carves=[kid]))
+for o in spec:
+    if o["entry"] in ("VerifC14Search","VerifC14Mismatch","VerifC14Replace"):
+        o["solver_timeout_ms"]=30000
+json.dump(spec, open('/verif/harness/obligations.d/C14.json','w'), indent=1)
+for tier in ("quick","thorough"):
+    print(tier, sum(len(o["cases"][tier]) for o in spec), {o["id"][4:]:len(o["cases"][tier]) for o in spec if not o["id"].startswith("C14.known")})
+
+*/
